@@ -13,9 +13,10 @@ DT = 2.0 ** -7
 def xml(n, delay, interp):
   ip = {0: "zoh", 1: "linear", 2: "cubic"}[interp]
   return f"""<mujoco><option timestep="{DT}" gravity="0 0 0"/>
-  <worldbody><body><joint name="s" type="slide" axis="1 0 0"/><geom size="0.1" mass="1"/></body></worldbody>
+  <worldbody><body name="b"><joint name="s" type="slide" axis="1 0 0"/><geom size="0.1" mass="1"/></body></worldbody>
   <actuator><motor name="m" joint="s" gear="1" delay="{delay * DT}" nsample="{n}" interp="{ip}"/></actuator>
-  <sensor><actuatorfrc actuator="m"/><jointvel joint="s" delay="{delay * DT}" nsample="{n}" interp="{ip}"/></sensor>
+  <sensor><actuatorfrc actuator="m"/><jointvel joint="s" delay="{delay * DT}" nsample="{n}" interp="{ip}"/>
+  <framelinvel objtype="body" objname="b" delay="{delay * DT}" nsample="{n}" interp="{ip}"/><framepos objtype="body" objname="b" delay="{delay * DT}" nsample="{n + 1}"/></sensor>
 </mujoco>"""
 
 
